@@ -367,6 +367,65 @@ SameVal(a, b, heap) ==
          [] b.t = "bool" -> a.t = "bool" /\ a.b = b.b
          [] OTHER -> FALSE
 
+
+---------------------------------------------------------------------------
+(* printf / sprintf (builtins.md printf): %v %s %q %t %% and %.Nf with N <= 2 *)
+
+\* m / 2^e rounded to p decimals (half to even on the exact value), as text
+FixedCps(a, p) ==
+  LET ab == Abs(a.m)
+      sc == ab * 10^p                     \* exact value * 10^p = sc / 2^e
+      q0 == sc \div 2^a.e
+      r2 == 2 * (sc % 2^a.e)
+      q  == IF r2 > 2^a.e \/ (r2 = 2^a.e /\ q0 % 2 = 1) THEN q0 + 1 ELSE q0
+      ip == q \div 10^p
+      fp == NatCps(q % 10^p)
+  IN (IF a.m < 0 /\ q > 0 THEN <<45>> ELSE <<>>) \o NatCps(ip)
+       \o (IF p = 0 THEN <<>> ELSE <<46>> \o Zeros(p - Len(fp)) \o fp)
+
+RECURSIVE FmtGo(_, _, _, _)
+\* result: [ok |-> "ok" | "panic" | "unspec", cp |-> text]; args are any-wrapped values
+FmtGo(s, f, args, acc) ==
+  IF Len(f) = 0 THEN (IF Len(args) = 0 THEN [ok |-> "ok", cp |-> acc] ELSE [ok |-> "unspec", cp |-> acc])
+  ELSE IF f[1] # 37 THEN FmtGo(s, Tail(f), args, Append(acc, f[1]))
+  ELSE IF Len(f) = 1 THEN [ok |-> "unspec", cp |-> acc]
+  ELSE IF f[2] = 37 THEN FmtGo(s, SubSeq(f, 3, Len(f)), args, Append(acc, 37))
+  ELSE IF Len(args) = 0 THEN [ok |-> "unspec", cp |-> acc]
+  ELSE LET v == Unwrap(args[1])
+           rest == SubSeq(args, 2, Len(args))
+       IN CASE f[2] = 118 -> IF ValPrintable(v, s.heap) THEN FmtGo(s, SubSeq(f, 3, Len(f)), rest, acc \o ValCps(v, s.heap, FALSE))
+                             ELSE [ok |-> "unspec", cp |-> acc]
+            [] f[2] = 115 -> IF v.t = "str" THEN FmtGo(s, SubSeq(f, 3, Len(f)), rest, acc \o v.cp) ELSE [ok |-> "panic", cp |-> acc]
+            [] f[2] = 113 -> IF v.t = "str" THEN (IF Quotable(v.cp) /\ \A i \in DOMAIN v.cp : v.cp[i] < 127
+                                                   THEN FmtGo(s, SubSeq(f, 3, Len(f)), rest, acc \o QuoteCps(v.cp))
+                                                   ELSE [ok |-> "unspec", cp |-> acc])
+                             ELSE [ok |-> "panic", cp |-> acc]
+            [] f[2] = 116 -> IF v.t = "bool" THEN FmtGo(s, SubSeq(f, 3, Len(f)), rest, acc \o (IF v.b THEN S_true ELSE S_false))
+                             ELSE [ok |-> "panic", cp |-> acc]
+            [] f[2] = 46 /\ Len(f) >= 4 /\ f[3] \in {48, 49, 50} /\ f[4] = 102 ->
+                             IF v.t # "num" THEN [ok |-> "panic", cp |-> acc]
+                             ELSE IF v.s = "fin" /\ Small(v) THEN FmtGo(s, SubSeq(f, 5, Len(f)), rest, acc \o FixedCps(v, f[3] - 48))
+                             ELSE [ok |-> "unspec", cp |-> acc]
+            [] OTHER -> [ok |-> "unspec", cp |-> acc]
+
+\* exactly representable points of the transcendental functions
+ExactMath(f, a, b) ==
+  CASE f = "sqrt" /\ IsFin(a) /\ a.e = 0 /\ a.m \in {0, 1, 4, 9, 16, 25, 144} ->
+         [ok |-> TRUE, v |-> I(CHOOSE r \in 0..12 : r * r = a.m)]
+    [] f = "sqrt" /\ a = Fin(9, 2) -> [ok |-> TRUE, v |-> Fin(3, 1)]
+    [] f = "sqrt" /\ a = Fin(1, 2) -> [ok |-> TRUE, v |-> Fin(1, 1)]
+    [] f = "pow" /\ IsInt(a) /\ IsInt(b) /\ b.m >= 0 /\ b.m <= 10 /\ Abs(a.m) <= 3 /\ ~(a.m = 0 /\ b.m = 0) ->
+         [ok |-> TRUE, v |-> I(a.m ^ b.m)]
+    [] f = "pow" /\ IsInt(a) /\ a.m = 2 /\ IsInt(b) /\ b.m < 0 /\ b.m >= -8 -> [ok |-> TRUE, v |-> Fin(1, -b.m)]
+    [] f = "pow" /\ IsFin(a) /\ IsZero(b) -> [ok |-> TRUE, v |-> I(1)]
+    [] f = "pow" /\ a = Fin(1, 1) /\ IsInt(b) /\ b.m \in 1..6 -> [ok |-> TRUE, v |-> Fin(1, b.m)]
+    [] f = "pow" /\ a = I(4) /\ b = Fin(1, 1) -> [ok |-> TRUE, v |-> I(2)]
+    [] f = "log" /\ a = I(1) -> [ok |-> TRUE, v |-> I(0)]
+    [] f = "sin" /\ IsZero(a) -> [ok |-> TRUE, v |-> I(0)]
+    [] f = "cos" /\ IsZero(a) -> [ok |-> TRUE, v |-> I(1)]
+    [] f = "atan2" /\ IsZero(a) /\ IsPos(b) -> [ok |-> TRUE, v |-> I(0)]
+    [] OTHER -> [ok |-> FALSE, v |-> NaN]
+
 Effect(s, e) == [s EXCEPT !.out = Append(s.out, e)]
 
 \* all arguments args evaluated: perform built-in f (the callL frame is still on top)
@@ -442,10 +501,27 @@ ApplyBuiltin(s, f, args) ==
     [] f = "round" -> IF IsNeg(args[1]) /\ IsZero(NumRound(args[1])) THEN Unspec(s) ELSE RetPop(s, NumRound(args[1]))
     [] f = "min" -> RetPop(s, NumMin(args[1], args[2]))
     [] f = "max" -> RetPop(s, NumMax(args[1], args[2]))
+    [] f \in {"printf", "sprintf"} ->
+         IF Len(args) = 0 \/ args[1].v.t # "str" THEN Panic(s, "badargs")
+         ELSE LET r == FmtGo(s, args[1].v.cp, SubSeq(args, 2, Len(args)), <<>>)
+              IN CASE r.ok = "ok" -> IF f = "printf" THEN RetPop(Effect(s, PrintEff(r.cp)), VNone) ELSE RetPop(s, VStr(r.cp))
+                   [] r.ok = "panic" -> Panic(s, "fmtverb")
+                   [] OTHER -> Unspec(s)
+    [] f = "rand" ->
+         LET n == args[1]
+         IN IF n.s = "nan" \/ (n.s = "fin" /\ n.m <= 0) \/ n.s = "ninf" THEN Panic(s, "badargs")
+            ELSE IF n.s # "fin" \/ (n.e > 0 /\ NumLt(n, I(1))) THEN Unspec(s)
+            ELSE RetPop([s EXCEPT !.rn = s.rn + 1], I((7 * s.rn + 3) % NumFloor(n).m))
+    [] f = "rand1" -> RetPop([s EXCEPT !.rn = s.rn + 1], Fin(1 + 2 * (s.rn % 8), 4))
+    [] f \in {"sqrt", "log", "sin", "cos"} ->
+         LET r == ExactMath(f, args[1], I(0)) IN IF r.ok THEN RetPop(s, r.v) ELSE Unspec(s)
+    [] f \in {"pow", "atan2"} ->
+         LET r == ExactMath(f, args[1], args[2]) IN IF r.ok THEN RetPop(s, r.v) ELSE Unspec(s)
     [] f = "test" ->
          IF Len(args) = 0 THEN Panic(s, "badargs")
-         ELSE IF Len(args) = 1 /\ args[1].v.t # "bool" THEN Panic([s EXCEPT !.tt = s.tt + 1], "badargs")
-         ELSE IF Len(args) > 2 /\ args[3].v.t # "str" THEN Panic([s EXCEPT !.tt = s.tt + 1], "badargs")
+         \* bad arguments are a panic; how such a call counts in the summary is not documented
+         ELSE IF (Len(args) = 1 /\ args[1].v.t # "bool") \/ (Len(args) > 2 /\ args[3].v.t # "str")
+         THEN (IF TheCase.noSummary \/ s.ph # "main" THEN Panic(s, "badargs") ELSE Unspec(s))
          ELSE IF Len(args) > 3 THEN Unspec(s)
          ELSE LET pass == IF Len(args) = 1 THEN args[1].v.b ELSE SameVal(args[1], args[2], s.heap)
                   s1 == [s EXCEPT !.tt = s.tt + 1, !.tf = s.tf + (IF pass THEN 0 ELSE 1)]
@@ -616,7 +692,7 @@ InitState == [status |-> "run", ph |-> "main",
               ctl |-> [m |-> "v", v |-> VNone],
               k |-> <<>>, env |-> << [n \in {"err", "errmsg"} |-> IF n = "err" THEN VBool(FALSE) ELSE VStr(<<>>)] >>,
               heap |-> <<>>, out |-> <<>>, stop |-> FALSE, inq |-> <<>>, evi |-> 0, evb |-> <<>>,
-              tt |-> 0, tf |-> 0, xc |-> 0]
+              tt |-> 0, tf |-> 0, xc |-> 0, rn |-> 0]
 
 \* families define  FamInit == InitWith(<their case set>)
 InitWith(CaseSet) == /\ cs \in CaseSet
@@ -681,6 +757,7 @@ ResultOf(s) ==
   CASE s.status \in {"done", "idle"} -> <<"ok">>
     [] s.status = "exit" -> <<"exit:" \o ToString(s.xc)>>
     [] s.status = "panic:indexany" -> <<"panic:bounds", "panic:indexvalue">>
+    [] s.status = "panic:fmtverb" -> <<"panic:badargs", "panic:other", "panic:user">>
     [] OTHER -> <<s.status>>
 
 MainEnd(s) == IF Len(s.evb) > 0 THEN s.evb[1] ELSE Len(s.out)
